@@ -36,6 +36,11 @@ def gen_case(seed: int, tier: str, index: int) -> Dict[str, Any]:
                 t += rng.choice([0.0, 0.0, 0.001, 0.01, 0.03, 0.2])
                 plan.append({"op": "send", "caller": c, "j": j, "t": round(t, 4)})
     elif sub == "dispatch":
+        # registrations and removals come from the caller's thread while the engine tidies its handler list: pre-empt inside udp_socket.py
+        sched["preempt_p"] = rng.choice([0.0, 0.1, 0.3, 0.6])
+        if sched["preempt_p"]:
+            # pre-empted lines cost virtual time, so that the caller's thread can wake up in the middle of an engine iteration
+            sched.update(cost_p=0.5, cost_max=0.002)
         prefixes = [b"AA", b"AAB", b"AB", b"B", b"", b"ABC", b"A", b"BB"]
         k = rng.randint(2, 7)
         for i in range(k):
@@ -50,6 +55,17 @@ def gen_case(seed: int, tier: str, index: int) -> Dict[str, Any]:
                 nid += 1
             elif r < 0.2:
                 plan.append({"op": "unreg", "which": rng.randrange(16)})
+                if rng.random() < 0.6:
+                    # ... and a new handler is registered while the engine is still removing that one
+                    plan.append({"op": "reg", "id": nid, "prefixes": [prefixes[rng.randrange(len(prefixes))].decode()], "raises": "", "front": False,
+                                 "after": rng.choice([0.0, 0.01, 0.049, 0.05, 0.051, round(rng.uniform(0.0, 0.06), 4), round(rng.uniform(0.0, 0.06), 4)])})
+                    nid += 1
+            elif r < 0.3:
+                # a one-shot handler (removed by the engine's tidy-up once it has answered) takes a datagram; while the engine is tidying,
+                # the caller's thread registers another handler, which a later datagram must still reach
+                plan.append({"op": "oneshot", "id": nid, "id2": nid + 1, "tag": f"Y{nid}", "tag2": f"Z{nid}",
+                             "after": round(0.001 + rng.choice([0.0, 0.0005, 0.001, rng.uniform(0.0, 0.004), rng.uniform(0.0, 0.01)]), 5)})
+                nid += 2
             else:
                 burst = rng.choice([1, 1, 1, 2, 5])
                 plan.append({"op": "dgram", "datas": ["".join(rng.choice("ABC") for _ in range(rng.randint(1, 4))) + f"#{len(plan)}.{b}.{rng.randrange(10 ** 6)}" for b in range(burst)]})
@@ -259,14 +275,46 @@ def sub_dispatch(world: WorldT) -> None:
     ndg = 0
     for op in world.case["plan"]:
         if op["op"] == "reg":
+            if op.get("after"):
+                world.sleep(op["after"])
             h = PrefixHandler(op["id"], [p.encode() for p in op["prefixes"]], op["raises"], record)
             sock.add_receive_handler(h)
             model.append((op["id"], [p.encode() for p in op["prefixes"]], op["raises"], h))
         elif op["op"] == "unreg":
             if model:
                 hid, _, _, h = model.pop(op["which"] % len(model))
-                sock.remove_receive_handler(h)
+                try:
+                    sock.remove_receive_handler(h)
+                except ValueError as e:
+                    world.violate(PROP, "handler-lost", f"handler {hid} was registered and never removed, yet the engine no longer has it "
+                                  f"(remove_receive_handler raised {e!r})", sig="handler-lost:registration-disappeared")
                 res.probe("handler_removed_while_running")
+        elif op["op"] == "oneshot":
+            def first_for(data):
+                return next(((hid, raises) for hid, pref, raises, h in model if any(data.startswith(p) for p in pref)), None)
+            h1 = PrefixHandler(op["id"], [op["tag"].encode()], "", record)
+            h1.remove_on_answer = True
+            sock.add_receive_handler(h1)
+            model.append((op["id"], [op["tag"].encode()], "", h1))
+            d1 = (op["tag"] + f"#{ndg}").encode()
+            expected.append((d1, first_for(d1)))
+            world.net.inject(src, me, d1, delay=0.001, who="dgram")
+            ndg += 1
+            if expected[-1][1] is not None and expected[-1][1][0] == op["id"]:
+                model[:] = [m for m in model if m[0] != op["id"]]       # it answers, the tidy-up of that iteration removes it
+            world.sleep(op["after"])
+            h2 = PrefixHandler(op["id2"], [op["tag2"].encode()], "", record)
+            sock.add_receive_handler(h2)
+            model.append((op["id2"], [op["tag2"].encode()], "", h2))
+            res.probe("registered_while_engine_tidies_up")
+            world.wait_until(lambda: not sock._socket.inbox and world.net.in_flight() == 0, 5)
+            world.sleep(0.15)
+            d2 = (op["tag2"] + f"#{ndg}").encode()
+            expected.append((d2, first_for(d2)))
+            world.net.inject(src, me, d2, delay=0.001, who="dgram")
+            ndg += 1
+            world.wait_until(lambda: not sock._socket.inbox and world.net.in_flight() == 0, 5)
+            world.sleep(0.15)
         elif op["op"] == "dgram":
             mark = len(record)
             for d in op["datas"]:
@@ -563,7 +611,7 @@ ASSUMPTIONS = [
     "registration changes are made between datagrams, so 'the first registered handler that accepts it' is unambiguous",
     "the ping thread may die of the 45 s connection timeout in long loss patterns; the statement is about the handshake",
 ]
-PROBES = ["backlog_longer_than_timeout", "handshake_with_unknown_version", "unreliable_simulator_handshake_completed", "incoming_traffic_while_sending", "multi_caller", "preempted_inside_udp_socket", "handler_removed_while_running", "no_handler_accepts", "handler_raised_in_handle",
+PROBES = ["backlog_longer_than_timeout", "registered_while_engine_tidies_up", "handshake_with_unknown_version", "unreliable_simulator_handshake_completed", "incoming_traffic_while_sending", "multi_caller", "preempted_inside_udp_socket", "handler_removed_while_running", "no_handler_accepts", "handler_raised_in_handle",
           "handler_raised_in_handled", "unanswered", "answered", "answer_after_removal", "handshake_with_losses", "segment_lost_during_handshake"]
 N_QUICK = 4800
 
